@@ -81,6 +81,12 @@ fn cancel_order_syscall(
         _ => return Err(JsError::type_error("__cancelOrder__ requires order ID")),
     };
 
+    // Only an id that was handed out can be cancelled, and the host hears about a
+    // cancellation once: ignore ids that were never allocated and repeated calls
+    if id.0 == 0 || id.0 >= interp.next_order_id || interp.cancelled_orders.contains(&id) {
+        return Ok(Guarded::unguarded(JsValue::Undefined));
+    }
+
     // Mark as cancelled
     interp.cancelled_orders.push(id);
 
